@@ -373,6 +373,17 @@ static int run_request(const Req& r, const std::map<std::string, std::string>* o
                     Outcome o = call_match(*req, b.p, (uint32_t)b.n, st);
                     R.count("evaluations"); R.count("negative_evaluations");
                     if (o == O_FALSE) continue;
+                    if (o == O_TRUE) {
+                        // a defect is hit millions of times: once its signature is recorded with a case string that this one
+                        // cannot beat in length, only count it (building the strings costs more than the matcher call)
+                        std::string sig = "match:stranger-accepted:" + f.name;
+                        if (f.name == "icmp.reply-type" && (v == 3 || v == 11 || v == 12)) sig += ":icmp-error-type";
+                        std::map<std::string, Violation>::iterator it = R.violations.find(sig);
+                        if (!verbose && it != R.violations.end() && it->second.kase.size() <= rs.size() + f.name.size() + 38) {
+                            it->second.count++; bad++;
+                            continue;
+                        }
+                    }
                     R.dist("distinct_outcomes", fnv("neg" + str((int)o)));
                     std::string kase = "part=func " + rs + " test=neg field=" + f.name + " off=" + str(off) + " val=" + str(v);
                     if (o == O_BAD) report(g_bad, "reply perturbed at " + str(off), kase);
@@ -402,6 +413,10 @@ static int run_request(const Req& r, const std::map<std::string, std::string>* o
             Outcome o = call_match(*req, b.p, (uint32_t)b.n, st);
             R.count("evaluations"); R.count("stranger_icmp_error_evaluations");
             if (o == O_FALSE) continue;
+            if (o == O_TRUE && !verbose) {
+                std::map<std::string, Violation>::iterator it = R.violations.find("match:stranger-accepted:icmp-error-other-addresses-other-quote");
+                if (it != R.violations.end() && it->second.kase.size() <= rs.size() + 49) { it->second.count++; bad++; continue; }
+            }
             std::string kase = "part=func " + rs + " test=icmperr type=" + str(types[ti]) + " code=" + str(codes[ci]) + " x=" + str(xv) + " y=" + str(yv) + " q=" + str(qv);
             if (o == O_BAD) report(g_bad, "stranger ICMP error", kase);
             else if (o == O_TRUE)
